@@ -284,12 +284,27 @@ async fn run_client_cell(c: &Cell) -> Result<Observed, String> {
     let mut version = "none".to_string();
     let mut admitted = false;
     let mut modbus_bytes_seen = 0usize;
+    let mut seen_early: Vec<String> = vec![];
     match tokio::time::timeout(STEP_TIMEOUT, acceptor.accept(tcp)).await {
         Err(_) => detail = "peer handshake timed out".to_string(),
         Ok(Err(e)) => detail = format!("peer handshake failed: {e}"),
         Ok(Ok(mut tls)) => {
             version = version_name(tls.get_ref().1.protocol_version());
-            // the application request is only issued now, so that it cannot fail fast with NoConnection
+            // lock-step on the listener: the application request is issued once the client has
+            // announced Connected (before that it would rightly fail fast with NoConnection)
+            let mut connected = false;
+            let deadline = tokio::time::Instant::now() + Duration::from_secs(3);
+            while let Ok(Some(s)) = tokio::time::timeout_at(deadline, states.recv()).await {
+                seen_early.push(format!("{s:?}"));
+                if s == ClientState::Connected {
+                    connected = true;
+                    break;
+                }
+                if matches!(s, ClientState::WaitAfterFailedConnect(_)) {
+                    break;
+                }
+            }
+            let _ = connected;
             let ch = channel.clone();
             let req = tokio::spawn(async move {
                 // wait for the Connected announcement first
@@ -315,7 +330,7 @@ async fn run_client_cell(c: &Cell) -> Result<Observed, String> {
         }
     }
     // collect listener states seen so far
-    let mut seen = vec![];
+    let mut seen = seen_early;
     while let Ok(s) = states.try_recv() {
         seen.push(format!("{s:?}"));
     }
